@@ -4,12 +4,14 @@ import (
 	"context"
 	"encoding/json"
 	"fmt"
+	"k8s.io/apimachinery/pkg/types"
 	"math/rand"
 	"path/filepath"
 	"sort"
 	"strconv"
 	"strings"
 
+	admissionv1 "k8s.io/api/admission/v1"
 	batchv1 "k8s.io/api/batch/v1"
 	corev1 "k8s.io/api/core/v1"
 	metav1 "k8s.io/apimachinery/pkg/apis/meta/v1"
@@ -18,7 +20,6 @@ import (
 	"sigs.k8s.io/controller-runtime/pkg/client/fake"
 	"sigs.k8s.io/controller-runtime/pkg/webhook/admission"
 	"sigs.k8s.io/yaml"
-	admissionv1 "k8s.io/api/admission/v1"
 
 	configv1beta1 "github.com/kubeflow/katib/pkg/apis/config/v1beta1"
 	commonv1beta1 "github.com/kubeflow/katib/pkg/apis/controller/common/v1beta1"
@@ -275,6 +276,29 @@ func init() {
 					tags = append(tags, "PANIC")
 				}
 			}()
+			if hasCfg && len(kc.RuntimeConfig.MetricsCollectorConfigs) == 1 && rng.Intn(4) == 0 {
+				// the injector lives as long as the controller: it has admitted a pod of this collector kind before, under an
+				// older katib-config (other image, other waitAllProcesses); what counts is the katib-config of now
+				older := kc.DeepCopy()
+				older.RuntimeConfig.MetricsCollectorConfigs[0].Image = "img/older-release"
+				w := waitTok != "1"
+				older.RuntimeConfig.MetricsCollectorConfigs[0].WaitAllProcesses = &w
+				ob, _ := yaml.Marshal(older)
+				cm := &corev1.ConfigMap{}
+				if c.Get(context.TODO(), types.NamespacedName{Namespace: "kubeflow", Name: "katib-config"}, cm) == nil {
+					cm.Data = map[string]string{"katib-config.yaml": string(ob)}
+					_ = c.Update(context.TODO(), cm)
+					func() {
+						defer func() { _ = recover() }()
+						if n0, e0 := inj.MutationRequired(p.DeepCopy(), ns); e0 == nil && n0 {
+							_, _ = inj.Mutate(p.DeepCopy(), ns)
+						}
+					}()
+					cm.Data = map[string]string{"katib-config.yaml": string(yb)}
+					_ = c.Update(context.TODO(), cm)
+					tags = append(tags, "katib-config-changed-since-an-earlier-admission")
+				}
+			}
 			need, err := inj.MutationRequired(p, ns)
 			if err != nil || !need {
 				impl = "not-required"
@@ -344,7 +368,7 @@ func init() {
 
 type c12obj struct {
 	kind, api, name string
-	owners         [][3]string
+	owners          [][3]string
 }
 
 func (o c12obj) tok() string {
